@@ -351,3 +351,8 @@ def run(ck, facts):
     c05.run(sub, facts)
     sub2 = C.SubCheck(ck, "R9", "", ["R2", "R3"], key_re=r"^c::|^c/")
     c06.run(sub2, facts)
+
+    # ---------------- R10 strings written by Rust arrive whole (clauses of C12 on the runtime writer)
+    import c12
+    sub3 = C.SubCheck(ck, "R10", "a string Rust writes through DiplomatWrite arrives whole whenever it fits: exact capacity test, bounded copy, len after copy, fixed writer reserves only the NUL byte (rules of C12)", ["R1", "R4", "R6"])
+    c12.run(sub3, facts)
